@@ -425,6 +425,42 @@ def check_helpers(case, ctx):
     ctx.check([list(r) for r in T] == [[M1[i][j] for i in range(len(M1))] for j in range(len(M1[0]))], "matrix_transpose", "matrix_transpose(%r) = %r" % (M1, T))
     prod = linalg.matrix_multiply(M1, M2)
     ctx.check([[F(x) for x in r] for r in prod] == ref.mat_mul(M1, M2), "matrix_multiply", "matrix_multiply(%r, %r) = %r" % (M1, M2, prod))
+    # the scalar product of a matrix, the translate of a point and the zero test are products, sums and comparisons of the
+    # same entries (all exact for these binary fractions)
+    M1_before = [list(r) for r in M1]
+    sm = linalg.matrix_scalar(M1, c)
+    ctx.check(len(sm) == len(M1) and all(len(r) == len(q) and all(F(x) == F(y) * F(c) for x, y in zip(r, q)) for r, q in zip(sm, M1)),
+              "matrix_scalar", "matrix_scalar(%r, %r) = %r" % (M1, c, sm))
+    ctx.check([list(r) for r in M1] == M1_before, "matrix_scalar-input-untouched", "matrix_scalar changed its input %r into %r" % (M1_before, M1))
+    for p_, v_ in ((a, b), (tuple(b), tuple(a)), (a[:2], b)):
+        pt = linalg.point_translate(p_, v_)
+        ctx.check(len(pt) == min(len(p_), len(v_)) and all(F(x) == F(p) + F(q) for x, p, q in zip(pt, p_, v_)), "point_translate",
+                  "point_translate(%r, %r) = %r" % (p_, v_, pt))
+    for tol_, want_ in ((None, all(abs(x) < 10e-8 for x in a)), (unit * 100.0, True), (unit / 16.0, not any(a))):
+        z = linalg.vector_is_zero(a) if tol_ is None else linalg.vector_is_zero(a, tol=tol_)
+        ctx.check(z is want_ or z == want_, "vector_is_zero", "vector_is_zero(%r%s) = %r" % (a, "" if tol_ is None else ", tol=%r" % tol_, z))
+    # angle between two non-zero vectors: compared with atan2(|a x b|, a . b) computed from the exact products (well conditioned
+    # everywhere, unlike acos); also between a vector and its exact multiples (0 and 180 degrees)
+    if any(a) and any(b):
+        for va, vb, kind in ((a, b, "general"), (a, [2.0 * x for x in a], "parallel"), (b, [-0.375 * x for x in b], "anti-parallel"), (b, list(b), "same")):
+            Ea, Eb = [F(x) for x in va] + [F(0)] * (3 - len(va)), [F(x) for x in vb] + [F(0)] * (3 - len(vb))
+            cx = [Ea[1] * Eb[2] - Ea[2] * Eb[1], Ea[2] * Eb[0] - Ea[0] * Eb[2], Ea[0] * Eb[1] - Ea[1] * Eb[0]]
+            sc_ = F(unit) * F(unit)
+            sin_, cos_ = ref.fsqrt(sum(x * x for x in cx) / (sc_ * sc_)), float(sum(x * y for x, y in zip(Ea, Eb)) / sc_)
+            want_rad = math.atan2(sin_, cos_)
+            ctx.label("angle-" + kind)
+            for deg in (None, True, False):
+                try:
+                    got = linalg.vector_angle_between(va, vb) if deg is None else linalg.vector_angle_between(va, vb, degrees=deg)
+                except ValueError as e:
+                    ctx.check(False, "vector_angle_between-raises", "vector_angle_between(%r, %r) raises %r" % (va, vb, e))
+                    continue
+                got_rad = got if deg is False else math.radians(got)
+                # acos loses digits near 0 and pi: an error eps in the cosine moves the angle by eps / sin(angle), at most sqrt(2 eps)
+                s_ = max(abs(math.sin(want_rad)), 1e-300)
+                tol_ = min(8e-16 / s_, 6e-8) + 1e-14
+                ctx.check(abs(got_rad - want_rad) <= tol_, "vector_angle_between", "vector_angle_between(%r, %r%s) = %r, the angle is %r %s" % (
+                    va, vb, "" if deg is None else ", degrees=%r" % deg, got, math.degrees(want_rad) if deg is not False else want_rad, "degrees" if deg is not False else "radians"))
     pv = linalg.matrix_multiply(M1, vec)
     ctx.check([F(x) for x in pv] == [sum(F(M1[i][j]) * F(vec[j]) for j in range(len(vec))) for i in range(len(M1))], "matrix_vector_multiply", "matrix_multiply(%r, %r) = %r" % (M1, vec, pv))
     if case.get("tri"):
@@ -443,6 +479,17 @@ def check_helpers(case, ctx):
         xe = [F(0)] * n
         for i in range(n - 1, -1, -1):
             xe[i] = (F(rhs[i]) - sum(FL[j][i] * xe[j] for j in range(i + 1, n))) / FL[i][i]
+        # Doolittle's factorisation itself: A = L U with A built from these triangular factors (all leading minors non-zero)
+        FA = [[sum(FL[i][k] * FL[j][k] for k in range(n)) for j in range(n)] for i in range(n)]
+        A = [[float(v) for v in r] for r in FA]
+        dl, du = linalg.lu_decomposition([list(r) for r in A])
+        lu_shape = len(dl) == n and len(du) == n and all(len(r) == n for r in dl) and all(len(r) == n for r in du)
+        ctx.check(lu_shape and all(dl[i][i] == 1.0 and all(dl[i][j] == 0.0 for j in range(i + 1, n)) and all(du[i][j] == 0.0 for j in range(i)) for i in range(n)),
+                  "lu_decomposition-triangular", "lu_decomposition(%r): L = %r is not unit lower triangular or U = %r not upper triangular" % (A, dl, du))
+        if lu_shape:
+            big = max([1] + [abs(F(v)) for r in dl for v in r]) * max([1] + [abs(F(v)) for r in du for v in r])
+            ctx.check(all(abs(sum(F(dl[i][k]) * F(du[k][j]) for k in range(n)) - FA[i][j]) <= F(1, 10 ** 11) * n * big for i in range(n) for j in range(n)),
+                      "lu_decomposition-product", "lu_decomposition(%r) = (%r, %r): L U differs from the matrix" % (A, dl, du))
         x = linalg.backward_substitution(U, list(rhs))
         ctx.check(len(x) == n and all(abs(F(a) - e) <= F(1, 10 ** 10) * (1 + max(map(abs, xe))) for a, e in zip(x, xe)), "backward_substitution",
                   "backward_substitution(%r, %r) = %r, exact solution of U x = y is %r" % (U, rhs, x, ref.fl(xe)))
